@@ -140,7 +140,7 @@ impl<'a, 'c> Gen<'a, 'c> {
     }
 }
 
-fn decode(bytes: &[u8]) -> (Program, Vec<String>) {
+pub fn decode(bytes: &[u8]) -> (Program, Vec<String>) {
     let mut c = Choices::new(bytes);
     let mut g = Gen { c: &mut c, next_closure: 0, labels: vec![], script_fns: vec![] };
     let mut body = vec![Stmt::SetVar("cap".into(), int(10)), Stmt::SetVar("cnt".into(), int(0))];
